@@ -88,6 +88,9 @@ def forunpack(K, f, g, h):
 def iadd(x, y):
     x += y
     return x
+def ipipe(x, y):
+    x |= y
+    return x
 `
 
 func init() { zzC06Mod = zzMExec("c06.star", zzC06Src) }
@@ -373,3 +376,5 @@ func zzH06_vmSteps() {
 	zzAssert(k.mutateOK(), "C06.steps.mutable_again")
 	zzReach("end")
 }
+
+func zzC06ipipe() Value { return zzC06Mod["ipipe"] }
